@@ -363,7 +363,8 @@ func c11Elem(c *Ctx, F *model.Fields, fn *ssa.Function, elem string, tok string,
 		evTB := A.EventVar("target-blank-present")
 		evHF := A.EventVar("href-found")
 		evExt := A.EventVar("href-has-host")
-		track := []int{evT, evPend, evGlue, evClean, evTB, evHF, evExt}
+		evScan := A.EventVar("attributes-scanned-for-target")
+		track := []int{evT, evPend, evGlue, evClean, evTB, evHF, evExt, evScan}
 		if tok == "noopener" {
 			track = append(track, fl("addTargetBlankFQ").Atom)
 		} else {
@@ -569,12 +570,46 @@ func c11Elem(c *Ctx, F *model.Fields, fn *ssa.Function, elem string, tok string,
 				return []uint32{a}
 			}
 		}
+		// traversals that look at each attribute's key for "target": entering one means an existing target="_blank"
+		// cannot go unnoticed
+		targetLoop := map[*ssa.BasicBlock]*model.RangeLoop{}
+		for _, l := range model.SliceRangeLoops(fn) {
+			for b := range l.Blocks {
+				if ifi, ok := b.Instrs[len(b.Instrs)-1].(*ssa.If); ok {
+					m := map[int]bool{}
+					A.Cond(ifi.Cond).Atoms(m)
+					for ai := range m {
+						at := A.Atoms[ai]
+						if at.Kind == "eq" {
+							if kk, ok := constString(at.Y); ok && kk == "target" {
+								targetLoop[l.Header] = l
+							}
+						}
+					}
+				}
+			}
+		}
+		inner := q.EdgeHook
+		q.EdgeHook = func(b *ssa.BasicBlock, k int) func(uint32) []uint32 {
+			f := inner(b, k)
+			// starting the traversal is what counts (an empty list holds no target attribute)
+			if l := targetLoop[b.Succs[k]]; l != nil && !l.Blocks[b] {
+				return func(a uint32) []uint32 {
+					a = q.With(a, evScan, true)
+					if f != nil {
+						return f(a)
+					}
+					return []uint32{a}
+				}
+			}
+			return f
+		}
 		for _, b := range fn.Blocks {
 			if !region.Dominates(b) {
 				q.Barrier[b] = true
 			}
 		}
-		q.Run(region, q.InitWith(map[int]bool{evT: false, evPend: false, evGlue: false, evClean: false, evTB: false, evHF: false, evExt: false}))
+		q.Run(region, q.InitWith(map[int]bool{evT: false, evPend: false, evGlue: false, evClean: false, evTB: false, evHF: false, evExt: false, evScan: false}))
 
 		// R1: the hardening block is reachable from the function entry for this element
 		if tok == "nofollow" {
@@ -625,6 +660,10 @@ func c11Elem(c *Ctx, F *model.Fields, fn *ssa.Function, elem string, tok string,
 				cons := fmt.Sprintf("(*Policy).sanitizeAttrs[elementName=%s]: leaving the link-hardening block (%s) — rel must carry %q", elem, blockRoleA(A, b), tok)
 				ok1, cex := q.Holds(st, pa.Implies(need, pa.AtomF(evT)))
 				R.Check(ok1, "C11.R3", rk, cons, pos, "token produced whenever required", "the hardening block can be left with "+tok+" required but no rel value known to carry it as a token: ["+cex+"]")
+				if tok == "noopener" && elem == "a" {
+					ok3, cex3 := q.Holds(st, pa.Implies(pa.AtomF(evHF), pa.AtomF(evScan)))
+					R.Check(ok3, "C11.R3", rk+":scanned", cons, pos, "the attributes were examined for an existing target", "an <a> with an href can leave the hardening block without its attributes having been examined for target=\"_blank\": an existing target=\"_blank\" then stays without rel=noopener: ["+cex3+"]")
+				}
 				ok2, cex2 := q.Holds(st, pa.And(pa.Not(pa.AtomF(evPend)), pa.Not(pa.AtomF(evGlue))))
 				R.Check(ok2, "C11.R3", rk+":appended", cons, pos, "every modified copy was appended; no glued token", "a rel value was extended but the modified copy may never be appended (or a token was glued to the previous one): ["+cex2+"]")
 			}
